@@ -125,8 +125,15 @@ def case_pattern(rng: Any, ctx: Ctx, index: int) -> None:
     from .. import patterns
     gen.begin_case(rng)
     names = sorted(patterns.PATTERNS)
-    name = names[(index // max(1, ctx.nshards)) % len(names)]
-    tag, seg = patterns.PATTERNS[name](rng)
+    rr = ([('blocks', f) for f in range(4)] + [('nearmiss', f) for f in range(patterns.N_NEARMISS)]
+          + [(n, None) for n in names if n not in ('blocks', 'nearmiss')])
+    name, form = rr[(index // max(1, ctx.nshards)) % len(rr)]
+    if name == 'blocks':
+        tag, seg = patterns.p_blocks(rng, form)
+    elif name == 'nearmiss':
+        tag, seg = patterns.p_nearmiss(rng, form)
+    else:
+        tag, seg = patterns.PATTERNS[name](rng)
     out = patterns.embed(rng, [seg], int(rng.integers(0, 2)), 0, int(rng.integers(0, 2)), scalars=int(rng.integers(0, 2)))
     if out is None:
         return
